@@ -31,6 +31,7 @@ type histProfile struct {
 	Scripts         bool       // insert a focused per-validator action sequence (one validator, one action per block)
 	Batches         bool       // insert blocks in which several validators perform the same action together
 	ScriptTemplates [][]string // when set: the validator script always uses one of these action sequences ("x!" = short time step before x, "burn1" = burn request of 100%)
+	MinSigned       []string   // when set: choices for MinSignedPerWindow
 	OwnerBias       int        // N>0: governance messages are sent by the current owner (resolved at execution) in N of N+1 cases
 	Anchor          bool       // in half of the histories one genesis validator is never accused, absent, unstaked or burned, so that the set rarely empties
 	seed            int
@@ -89,6 +90,9 @@ func genGenesis(t *rapid.T, pr *histProfile) hGenesis {
 		g.Window = rapid.SampledFrom(pr.Windows).Draw(t, "windowp")
 	}
 	g.MinSigned = rapid.SampledFrom([]string{"0", "0.05", "0.5", "0.5", "0.9", "1"}).Draw(t, "minsigned")
+	if len(pr.MinSigned) > 0 {
+		g.MinSigned = rapid.SampledFrom(pr.MinSigned).Draw(t, "minsignedp")
+	}
 	g.JailSec = rapid.SampledFrom([]int64{60, 600}).Draw(t, "jail")
 	fr := []string{"0", "0.01", "0.05", "1", "0.000000000000000001", "0.333333333333333333", "0.5", "0.999999999999999999"}
 	g.SlashDS = rapid.SampledFrom(fr).Draw(t, "slashds")
@@ -241,7 +245,8 @@ func genTx(pr *histProfile) func(t *rapid.T) hTx {
 		}
 		if pr.WrongSigner > 0 && rapid.IntRange(0, pr.WrongSigner-1).Draw(t, "wrongsigner") == 0 {
 			tx.SignWith = rapid.IntRange(0, simPoolSize-1).Draw(t, "signwith")
-			tx.KeyInSig = true
+			// the attacker's key travels in the signature, or no key does and the victim's stored key is looked up
+			tx.KeyInSig = rapid.IntRange(0, 2).Draw(t, "attackerkeyinsig") != 0
 		}
 		if len(pr.Mutations) > 0 && rapid.IntRange(0, 2).Draw(t, "mutate") == 0 {
 			tx.Mut = rapid.SampledFrom(pr.Mutations).Draw(t, "mut")
@@ -476,8 +481,22 @@ func genValidatorScript(t *rapid.T, g *hGenesis, templates [][]string) []hBlock 
 	if len(g.Validators) > 0 && rapid.IntRange(0, 3).Draw(t, "sgenesisval") != 0 {
 		key = g.Validators[rapid.IntRange(0, len(g.Validators)-1).Draw(t, "sval")].Key
 	}
+	// the scripted validator can pay for its transactions
+	funded := false
+	for i := range g.Accounts {
+		if g.Accounts[i].Key == key {
+			funded = true
+			if g.Accounts[i].Balance < 100000000 {
+				g.Accounts[i].Balance = 100000000 + int64(key)
+			}
+			g.Accounts[i].NoPub = false
+		}
+	}
+	if !funded {
+		g.Accounts = append(g.Accounts, hGenAcc{Key: key, Balance: 100000000 + int64(key)})
+	}
 	u := g.UnstakingSec
-	steps := []int64{0, 1, 1, 59, 61, u / 2, u - 1, u, u + 1, g.JailSec, g.JailSec + 1}
+	steps := []int64{0, 1, 1, 59, 61, u / 2, u - 1, u, u + 1, g.JailSec - 1, g.JailSec, g.JailSec + 1}
 	mkTx := func(kind string, e int64) hTx {
 		tx := hTx{Kind: kind, From: key, To: key, SignWith: -1, KeyInSig: true, Entropy: 7000 + e}
 		switch kind {
